@@ -296,3 +296,8 @@ PROPS["C01"].update({"lean": ["DM.Props.C01"],
     "explanation": "Theorem pipeline_roundtrip (DM/Props/C01.lean): for every size and every vector of data codewords of the size's capacity, encode_error -> new_with_codewords -> bitmap -> try_from_bits -> codewords -> decode_error returns exactly the data codewords and the size (composition of the C06, C07, C08 theorems with clean_word_unchanged: the decoder's syndromes equal the specification's, so a word whose blocks are codewords passes the Reed-Solomon decoder untouched). Hence DataMatrix::decode(bitmap) and decode_data(data codewords) agree on every encoder output. The data-level half (decode_data inverts the mode encoders for every plan) is decided by the sweep: decode_data and DataMatrix::decode on the real code must return the input, the independent reference decoder must decode the stream to the input, and the whole decoding pipeline is compared with the composition of the Lean models (also on symbols with a few damaged modules).",
     "level_text": "Partial proof: the symbol-level half of the round trip is a theorem for all sizes and contents; the data-level half is exploration with a specification oracle.",
     "unproved": ["encode_conformant: forall plans, decode_data (Encode.run plan input) = input (mode encoders not yet modelled)"]})
+
+PROPS["C19"].update({"lean": ["DM.Props.C19"], "gens": ["c19", "c19p"],
+    "explanation": PROPS["C19"]["explanation"] + " Theorem live_plans_le_36 (DM/Props/C19.lean): for every candidate list, the model of remove_hopeless_cases keeps at most 36 plans (pairwise distinct (start mode, current mode)) and only removes; the model is compared with the code on every call of remove_hopeless_cases recorded by the hook (sorted input and final list) during planning of the sweep's inputs. The per-iteration arithmetic (36 + 5*36 = 216 steps) is steps_per_iteration; that the loop runs len+1 times is checked by the counters, not proved.",
+    "level_text": "Partial proof (pruning bound for every candidate list, model tied to the code call by call) + instrumented counters for the iteration count.",
+    "unproved": ["optimize_iterations: every live plan reads exactly one character per step, so the loop ends after len + 1 iterations"]})
